@@ -50,3 +50,138 @@ package keeper
 //@   loop #0 invariant range:    c0 <u cp.Sequence && cp.Sequence <=u mx && c0 <=u seq && seq <=u cp.Sequence + 1
 //@   loop #0 invariant nocommit: forall n: u64 :: c0 <=u n && n <u seq ==> !present(tibc[commit(cp.SourceChain, cp.DestinationChain, n)])
 //@   loop #0 decreases cp.Sequence + 1 - seq
+//@
+//@ func (Keeper).RecvPacket(ctx, packet, proof, proofHeight) (err)
+//@   props C01 C02 C11 C13 C19
+//@   dyn packet = types.Packet
+//@   dyn proofHeight = clienttypes.Height
+//@   modifies tibc, events
+//@   let p        = packet
+//@   let me       = clientkeeper.selfName(tibc)
+//@   let from     = ite(p.DestinationChain == me && len(p.RelayChain) > 0, p.RelayChain, p.SourceChain)
+//@   let valid    = p.Sequence != 0 && len(p.Data) != 0 && (p.RelayChain == me || p.DestinationChain == me || p.SourceChain == me)
+//@   let fresh    = !present(tibc[receipt(p.SourceChain, p.DestinationChain, p.Sequence)]) && p.Sequence >u u64(tibc[cleanPt(p.SourceChain, p.DestinationChain)])
+//@   let known    = present(tibc[clientState(from)])
+//@   let proved   = exported.VerifiedCommit(clienttypes.csDecode(val(tibc[clientState(from)])), tibc, from, now(), proofHeight.RevisionNumber, proofHeight.RevisionHeight,
+//@                                          proof, p.SourceChain, p.DestinationChain, p.Sequence, bytes(sha256(str(p.Data))))
+//@   let pre      = valid && fresh && known && proved
+//@   let onRelay  = p.RelayChain == me
+//@   let auth     = routingkeeper.routeAllowed(tibc[routingRules()], p.SourceChain, p.DestinationChain, p.Port)
+//@   let dstKnown = present(tibc[clientState(p.DestinationChain)])
+//@   let rcpt     = old(tibc)[receipt(p.SourceChain, p.DestinationChain, p.Sequence) := "\x01"]
+//@   let sendEv   = ev(types.EventTypeSendPacket, types.AttributeKeyData, str(p.Data), types.AttributeKeySequence, itoa(p.Sequence),
+//@                     types.AttributeKeyPort, p.Port, types.AttributeKeySrcChain, p.SourceChain, types.AttributeKeyDstChain, p.DestinationChain,
+//@                     types.AttributeKeyRelayChain, p.RelayChain)
+//@   let msgEv    = ev(sdk.EventTypeMessage, sdk.AttributeKeyModule, types.AttributeValueCategory)
+//@   ensures ok.pre:       err == nil ==> pre && (onRelay ==> auth && dstKnown)
+//@   ensures unauth.pre:   err == sdkerrors.ErrUnauthorized ==> pre && onRelay && !auth
+//@   ensures complete:     pre ==> (!onRelay ==> err == nil) && (onRelay && auth && dstKnown ==> err == nil) && (onRelay && !auth ==> err == sdkerrors.ErrUnauthorized)
+//@   ensures deny.unknown: pre && onRelay && auth && !dstKnown ==> err == sdkerrors.ErrUnauthorized
+//@   ensures state.ok:     err == nil ==> tibc == ite(onRelay, rcpt[commit(p.SourceChain, p.DestinationChain, p.Sequence) := sha256(str(p.Data))], rcpt)
+//@   ensures state.unauth: err == sdkerrors.ErrUnauthorized ==> tibc == rcpt
+//@   ensures early.atomic: err != nil && !pre ==> tibc == old(tibc) && events == old(events)
+//@   ensures fwd.event:    err == nil && onRelay ==> ehd(events) == msgEv && ehd(etl(events)) == sendEv
+//@   ensures verify.once:  ncalls(ClientState.VerifyPacketCommitment) <= 1
+//@
+//@ spec ackIn(k: key, s: str, d: str, lo: u64, hi: u64): bool = is_ack(k) && ack_0(k) == s && ack_1(k) == d && lo <u ack_2(k) && ack_2(k) <=u hi
+//@ spec receiptIn(k: key, s: str, d: str, lo: u64, hi: u64): bool = is_receipt(k) && receipt_0(k) == s && receipt_1(k) == d && lo <u receipt_2(k) && receipt_2(k) <=u hi
+//@
+//@ func (Keeper).cleanAcknowledgementBySeq(ctx, sourceChain, destChain, sequence)
+//@   props C02 C10
+//@   modifies tibc
+//@   let c0 = u64(tibc[cleanPt(sourceChain, destChain)])
+//@   requires bound: sequence <u MAXU64 && c0 <u MAXU64
+//@   ensures state: forall k: key :: tibc[k] == ite(ackIn(k, sourceChain, destChain, c0, sequence), none, old(tibc)[k])
+//@   loop #0 invariant range: c0 + 1 <=u seq && (seq <=u sequence + 1 || seq == c0 + 1)
+//@   loop #0 invariant state: forall k: key :: tibc[k] == ite(ackIn(k, sourceChain, destChain, c0, seq - 1), none, old(tibc)[k])
+//@   loop #0 decreases sequence + 1 - seq
+//@
+//@ func (Keeper).cleanReceiptBySeq(ctx, sourceChain, destChain, sequence)
+//@   props C02 C10
+//@   modifies tibc
+//@   let c0 = u64(tibc[cleanPt(sourceChain, destChain)])
+//@   requires bound: sequence <u MAXU64 && c0 <u MAXU64
+//@   ensures state: forall k: key :: tibc[k] == ite(receiptIn(k, sourceChain, destChain, c0, sequence), none, old(tibc)[k])
+//@   loop #0 invariant range: c0 + 1 <=u seq && (seq <=u sequence + 1 || seq == c0 + 1)
+//@   loop #0 invariant state: forall k: key :: tibc[k] == ite(receiptIn(k, sourceChain, destChain, c0, seq - 1), none, old(tibc)[k])
+//@   loop #0 decreases sequence + 1 - seq
+//@
+//@ func (Keeper).WriteAcknowledgement(ctx, packet, acknowledgement) (err)
+//@   props C03 C11 C19
+//@   dyn packet = types.Packet
+//@   modifies tibc, events
+//@   let p      = packet
+//@   let me     = clientkeeper.selfName(tibc)
+//@   let target = ite(len(p.RelayChain) > 0 && p.DestinationChain == me, p.RelayChain, p.SourceChain)
+//@   let pre    = len(acknowledgement) != 0 && !present(tibc[ack(p.SourceChain, p.DestinationChain, p.Sequence)]) && present(tibc[clientState(target)])
+//@   ensures iff:    err == nil <==> pre
+//@   ensures state:  err == nil ==> tibc == old(tibc)[ack(p.SourceChain, p.DestinationChain, p.Sequence) := sha256(str(acknowledgement))]
+//@                                                  [maxAck(p.SourceChain, p.DestinationChain) := enc64(umax(u64(old(tibc)[maxAck(p.SourceChain, p.DestinationChain)]), p.Sequence))]
+//@   ensures atomic: err != nil ==> tibc == old(tibc) && events == old(events)
+//@
+//@ func (Keeper).AcknowledgePacket(ctx, packet, acknowledgement, proof, proofHeight) (err)
+//@   props C03 C11 C13
+//@   dyn packet = types.Packet
+//@   dyn proofHeight = clienttypes.Height
+//@   modifies tibc, events
+//@   let p       = packet
+//@   let me      = clientkeeper.selfName(tibc)
+//@   let from    = ite(p.SourceChain == me && len(p.RelayChain) > 0, p.RelayChain, p.DestinationChain)
+//@   let valid   = p.Sequence != 0 && len(p.Data) != 0 && (p.RelayChain == me || p.DestinationChain == me || p.SourceChain == me)
+//@                 && p.Sequence >u u64(tibc[cleanPt(p.SourceChain, p.DestinationChain)])
+//@   let held    = tibc[commit(p.SourceChain, p.DestinationChain, p.Sequence)] == some(sha256(str(p.Data)))
+//@   let known   = present(tibc[clientState(from)])
+//@   let proved  = exported.VerifiedAck(clienttypes.csDecode(val(tibc[clientState(from)])), tibc, from, now(), proofHeight.RevisionNumber, proofHeight.RevisionHeight,
+//@                                      proof, p.SourceChain, p.DestinationChain, p.Sequence, bytes(sha256(str(acknowledgement))))
+//@   let pre     = valid && held && known && proved
+//@   let onRelay = p.RelayChain == me
+//@   let srcKnown = present(tibc[clientState(p.SourceChain)])
+//@   let dropped = old(tibc)[commit(p.SourceChain, p.DestinationChain, p.Sequence) := none]
+//@                          [maxAck(p.SourceChain, p.DestinationChain) := enc64(umax(u64(old(tibc)[maxAck(p.SourceChain, p.DestinationChain)]), p.Sequence))]
+//@   ensures ok.pre:   err == nil ==> pre && (onRelay ==> srcKnown)
+//@   ensures complete: pre && (onRelay ==> srcKnown) ==> err == nil
+//@   ensures state:    err == nil ==> tibc == ite(onRelay, dropped[ack(p.SourceChain, p.DestinationChain, p.Sequence) := sha256(str(acknowledgement))], dropped)
+//@   ensures early.atomic: err != nil && !pre ==> tibc == old(tibc) && events == old(events)
+//@   ensures verify.once:  ncalls(ClientState.VerifyPacketAcknowledgement) <= 1
+//@
+//@ func (Keeper).CleanPacket(ctx, cleanPacket) (err)
+//@   props C10
+//@   dyn cleanPacket = types.CleanPacket
+//@   modifies tibc, events
+//@   let cp     = cleanPacket
+//@   let me     = clientkeeper.selfName(tibc)
+//@   let c0     = u64(tibc[cleanPt(me, cp.DestinationChain)])
+//@   let mx     = u64(tibc[maxAck(me, cp.DestinationChain)])
+//@   let target = ite(len(cp.RelayChain) > 0, cp.RelayChain, cp.DestinationChain)
+//@   let pre    = cp.Sequence != 0 && c0 <u cp.Sequence && cp.Sequence <=u mx && present(tibc[clientState(target)]) &&
+//@                (forall n: u64 :: c0 <=u n && n <=u cp.Sequence ==> !present(tibc[commit(me, cp.DestinationChain, n)]))
+//@   requires seqbound: mx <u MAXU64
+//@   ensures iff:    err == nil <==> pre
+//@   ensures state:  err == nil ==> tibc == old(tibc)[cleanPt(me, cp.DestinationChain) := enc64(cp.Sequence)]
+//@   ensures atomic: err != nil ==> tibc == old(tibc) && events == old(events)
+//@
+//@ func (Keeper).RecvCleanPacket(ctx, cleanPacket, proof, proofHeight) (err)
+//@   props C10 C02
+//@   dyn cleanPacket = types.CleanPacket
+//@   dyn proofHeight = clienttypes.Height
+//@   modifies tibc, events
+//@   let cp      = cleanPacket
+//@   let me      = clientkeeper.selfName(tibc)
+//@   let s       = cp.SourceChain
+//@   let d       = cp.DestinationChain
+//@   let c0      = u64(tibc[cleanPt(s, d)])
+//@   let mx      = u64(tibc[maxAck(s, d)])
+//@   let from    = ite(d == me && len(cp.RelayChain) > 0, cp.RelayChain, s)
+//@   let valid   = c0 <u cp.Sequence && cp.Sequence <=u mx && (forall n: u64 :: c0 <=u n && n <=u cp.Sequence ==> !present(tibc[commit(s, d, n)]))
+//@   let known   = present(tibc[clientState(from)])
+//@   let proved  = exported.VerifiedClean(clienttypes.csDecode(val(tibc[clientState(from)])), tibc, from, now(), proofHeight.RevisionNumber, proofHeight.RevisionHeight,
+//@                                        proof, s, d, cp.Sequence)
+//@   let pre     = valid && known && proved
+//@   let onRelay = cp.RelayChain == me
+//@   let dstKnown = present(tibc[clientState(d)])
+//@   requires seqbound: mx <u MAXU64
+//@   ensures ok.pre:   err == nil ==> pre && (onRelay ==> dstKnown)
+//@   ensures complete: pre && (onRelay ==> dstKnown) ==> err == nil
+//@   ensures state:    err == nil ==> forall k: key :: tibc[k] == ite(k == cleanPt(s, d), some(enc64(cp.Sequence)),
+//@                                        ite(ackIn(k, s, d, c0, cp.Sequence) || receiptIn(k, s, d, c0, cp.Sequence), none, old(tibc)[k]))
+//@   ensures early.atomic: err != nil && !pre ==> tibc == old(tibc) && events == old(events)
